@@ -46,3 +46,17 @@ Definition run_uniq_z (xs : list (option Z)) : list Z :=
 Definition run_uniq_f (xs : list (option float)) : list Z :=
   cells c_nat (uidx_first PrimFloat.eqb xs) ++ c_sep ++ cells c_nat (uidx_last PrimFloat.eqb xs) ++ c_sep
   ++ cells c_float (vsorted_unique PrimFloat.eqb xs).
+
+(* C14 audit: Option<i32> edge vectors that may hold None (vcut_call), and the label type's null (collect_items) *)
+Definition enc_call (nullable : bool) (r : res (option (list (item Z)))) : list Z :=
+  match r with
+  | Panic k => c_panic k
+  | Ok None => c_err
+  | Ok (Some its) =>
+      match collect_items nullable its with
+      | Panic k => c_panic k
+      | Ok its' => flat_map (fun it => match it with Lab l => c_int l | NullLab => c_null | ErrItem => c_err end) its'
+      end
+  end.
+Definition run_cut_call_z (right ab nullable : bool) (edges : list (option Z)) (nlab : nat) (xs : list (option Z)) : list Z :=
+  enc_call nullable (vcut_call Z.ltb Z.leb i32min i32max right ab edges (labs nlab) xs).
